@@ -2425,8 +2425,8 @@ namespace detail {
 
 template <typename TArgs>
 class CPlanT {
-	template <typename, typename>
-	friend class R_;
+	template <typename>
+	friend class ConstControlT;
 
 	template <typename>
 	friend class ControlT;
